@@ -930,12 +930,17 @@ func c27Configs(thorough bool) []c27Config {
 				if kc.Unknown && !allUnknown {
 					continue // the router is keyed by topic name: unresolved ids are never looked up
 				}
-				if n == 4 && !thorough {
-					// quick: the two partitions of a topic share one of the patterns UU, AA, AB, UA, BA, UB
-					okPat := func(a, b int) bool {
-						return (a == 0 && b == 0) || (a == 1 && b == 1) || (a == 1 && b == 2) || (a == 0 && b == 1) || (a == 2 && b == 1) || (a == 0 && b == 2)
+				if !thorough && n == 4 {
+					// quick, 2x2 shape: routing tables up to the A<->B symmetry (swapping the two backends and
+					// the round-robin phase gives an isomorphic system): the first owned partition is A's
+					first := 0
+					for _, x := range routes {
+						if x != 0 {
+							first = x
+							break
+						}
 					}
-					if !okPat(routes[0], routes[1]) || !okPat(routes[2], routes[3]) {
+					if first == 2 {
 						continue
 					}
 				}
@@ -1041,7 +1046,7 @@ func TestVerifC27(t *testing.T) {
 		n := cfg.Topics * cfg.Parts
 		if thorough {
 			if n == 4 {
-				return 2
+				return 3
 			}
 			return 4
 		}
@@ -1058,14 +1063,59 @@ func TestVerifC27(t *testing.T) {
 	deadline := vh.Deadline()
 	shard, nshards := vh.Shard()
 
-	jobs := make(chan c27Config, 64)
+	type job struct {
+		idx int
+		cfg c27Config
+	}
+	jobs := make(chan job, 64)
 	go func() {
 		defer close(jobs)
 		for i, c := range cfgs {
 			if i%nshards != shard {
 				continue
 			}
-			jobs <- c
+			jobs <- job{i, c}
+		}
+	}()
+	// violations are reported smallest script first (fewest injected behaviours, then simplest
+	// configuration), whatever order the workers found them in
+	type found struct {
+		size, order int
+		detail      string
+		c           c27Case
+	}
+	var aggMu sync.Mutex
+	aggCount := map[string]int64{}
+	aggBest := map[string][]found{}
+	record := func(key string, f found) {
+		aggMu.Lock()
+		defer aggMu.Unlock()
+		aggCount[key]++
+		b := append(aggBest[key], f)
+		sort.SliceStable(b, func(i, j int) bool {
+			if b[i].size != b[j].size {
+				return b[i].size < b[j].size
+			}
+			return b[i].order < b[j].order
+		})
+		if len(b) > 3 {
+			b = b[:3]
+		}
+		aggBest[key] = b
+	}
+	defer func() {
+		keys := make([]string, 0, len(aggBest))
+		for k := range aggBest {
+			keys = append(keys, k)
+		}
+		sort.Strings(keys)
+		for _, k := range keys {
+			for _, f := range aggBest[k] {
+				rep.Violation(k, f.detail, f.c)
+			}
+			for n := int64(len(aggBest[k])); n < aggCount[k]; n++ {
+				rep.Violation(k, "", nil)
+			}
 		}
 	}()
 	workers := runtime.GOMAXPROCS(0)
@@ -1085,7 +1135,8 @@ func TestVerifC27(t *testing.T) {
 				return
 			}
 			defer k.close()
-			for cfg := range jobs {
+			for j := range jobs {
+				cfg, cfgIdx := j.cfg, j.idx
 				var runs, faulty int64
 				sigs := map[string]bool{}
 				capped := c27Explore(k, cfg, faults(cfg), thorough, deadline, func(c c27Case, o c27Outcome) {
@@ -1107,13 +1158,14 @@ func TestVerifC27(t *testing.T) {
 						// self-check of the rig: without injected faults every partition succeeds
 						for _, tp := range cfg.tps() {
 							if cs := o.Reply[tp]; len(cs) != 1 || cs[0] != 0 {
-								hasDead := false
+								// (three fan-out groups over two backends: the proxy excludes a backend already
+								// used in the same attempt, so one group finds no backend - an error entry, allowed)
+								seen := map[int]bool{}
 								for _, r := range cfg.Routes {
-									if r == 3 {
-										hasDead = true
-									}
+									seen[r] = true
 								}
-								if !hasDead && o.Err == "" {
+								threeGroups := seen[0] && seen[1] && seen[2]
+								if !seen[3] && !threeGroups && o.Err == "" {
 									rep.Count("rig_fault_free_run_not_successful", 1)
 									anomalyOnce.Do(func() {
 										rep.Cap(fmt.Sprintf("rig anomaly (not a verdict): fault-free run of %+v did not succeed: %v", cfg, c27ReplyStrings(cfg, o)))
@@ -1123,7 +1175,7 @@ func TestVerifC27(t *testing.T) {
 						}
 					}
 					for _, v := range c27Check(cfg, o) {
-						rep.Violation(v.key, v.detail+" | log: "+strings.Join(c27LogStrings(o), " ; ")+" | reply: "+strings.Join(c27ReplyStrings(cfg, o), " "), c)
+						record(v.key, found{len(c.Script), cfgIdx, v.detail + " | log: " + strings.Join(c27LogStrings(o), " ; ") + " | reply: " + strings.Join(c27ReplyStrings(cfg, o), " "), c})
 					}
 					if nt && len(o.Arrivals) >= 3 && len(c.Script) >= 2 && rep.WantSample() {
 						rep.Sample(map[string]any{"case": c, "log": c27LogStrings(o), "reply": c27ReplyStrings(cfg, o)})
@@ -1131,6 +1183,8 @@ func TestVerifC27(t *testing.T) {
 				})
 				rep.Eval(runs)
 				rep.Count("runs_with_faults", faulty)
+				rep.Count(fmt.Sprintf("runs_shape_%dx%d", cfg.Topics, cfg.Parts), runs)
+				rep.Count(fmt.Sprintf("configs_shape_%dx%d", cfg.Topics, cfg.Parts), 1)
 				for s, nt := range sigs {
 					rep.Outcome(s, nt)
 				}
